@@ -122,9 +122,12 @@ impl ScriptedDriver for Drv {
         Some(Lbl::PollIntr) => continue,
         Some(Lbl::PollTimeout) if !(self.k_ready || self.t_ready) => {
           if let Some(t) = timeout {
+            // (a time-out is only ever slept through when it is short: long ones are answered at once, like in mode "no")
+            let t = if t > Duration::from_millis(60) { Duration::from_millis(0) } else { t };
             let mode = if self.sleep.is_empty() { "no".to_string() } else { self.sleep[std::cmp::min(self.nsleep, self.sleep.len() - 1)].clone() };
             self.nsleep += 1;
             match mode.as_str() {
+              _ if t.as_micros() == 0 && timeout.map(|x| x > Duration::from_millis(60)).unwrap_or(false) => (),
               "yes" => std::thread::sleep(t),                                        // the time-out elapses
               "over" => std::thread::sleep(t + Duration::from_micros(2500)),           // served a little late
               "late" => std::thread::sleep(t + Duration::from_millis(8)),              // served several intervals late (a stalled process)
